@@ -117,6 +117,20 @@ def run(rep, tier, seed):
             for p in ps:
                 offs.append(offs[-1] + len(p))
             meta[cid] = {"sid": si, "mode": mode, "bytes": bs.hex(), "cuts": cuts, "offs": offs, "kind": "chunks"}
+        # type-ahead: the first keys are typed BEFORE the call starts, while nobody reads (they wait in the terminal's queue, in
+        # the mode the application left it in: only keys a cooked terminal passes through unchanged)
+        na = 0
+        while na < len(bs) - 1 and bs[na] >= 0x20 and bs[na] != 0x7f:
+            na += 1
+        if na >= 1 and si % 2 == 0:
+            for cut in sorted({na, rng.randint(1, na)}):
+                if bs[cut] & 0xC0 == 0x80:
+                    continue      # (not inside a character: the cooked terminal echoes what it receives)
+                cid = "s%d.t%d" % (si, cut)
+                cs = mk_case(cid, mode, [keys(bs[cut:])], opts=opts)
+                cs["preacts"] = [[{"k": "type", "h": bs[:cut].hex()}]]
+                cases.append(cs)
+                meta[cid] = {"sid": si, "mode": mode, "bytes": bs.hex(), "cuts": [cut], "offs": [0, cut, len(bs)], "kind": "chunks", "ahead": cut}
         # bytes after position i arrive in the same read as a cursor position report
         poss = [i for i in range(0, len(bs)) if i == 0 or splits_ok(bs, [i], vi)]
         if b"R" in bs and __import__("re").search(rb"\x1b\[\d+;\d+R", bs):
